@@ -257,6 +257,7 @@ func propC12Free(ch core.Chooser, st *core.Stats) error {
 	env := NewEnv(kind)
 	defer env.Cleanup()
 	cfg := dbx.Config{SegSize: uint32(core.PickInt(ch, "segsize", []int{1024, 2048, 8192})), MinSeg: 520, Frag: 0.02}
+	cfg.SyncWrites = core.Pct(ch, "syncwrites", 25)
 	opts := cfg.Options(env.FS)
 	bg := ch.Int("bg_compact_ms", 0, 2)
 	opts.BackgroundCompactionInterval = time.Duration(bg) * time.Millisecond
